@@ -16,13 +16,16 @@ Property theorems about the model `Model/Remora.lean`:
   at the index being written;
 * `orientation_irrelevant`: storing a matrix into a row-major and into a column-major container
   and reading it back denotes the same matrix, for all shapes (0×n, n×0, 1×n …);
-* `proxy_index_*`: the address arithmetic of nested dense proxies composes to the definition.
+* `proxy_index_*`: the address arithmetic of nested dense proxies composes to the definition;
+  `proxy_read_*`: a dense proxy read from memory denotes the expression-level proxy of the matrix read
+  from memory (the dense.hpp optimisers agree with the proxy specification).
 
 The model is tied to the C++ by T1 (rule table) and the correspondence check K-C01
 (`checks/c01.py`): generated programs, exact comparison, both BLAS configurations.
 -/
 import SharkVerif.Lemmas.Remora
 import SharkVerif.Gen.RemoraRules
+import Mathlib.Data.List.Nodup
 namespace SharkVerif.C01
 open SharkVerif.Remora
 
@@ -440,6 +443,113 @@ theorem rowSweep_covers (n1 n2 : Nat) : (rowSweep n1 n2).Nodup ∧ ∀ k, k ∈ 
   exact ⟨List.nodup_range, fun k => List.mem_range⟩
 
 end Orientation
+
+/-! ## 3b. dense proxies denote the expression-level proxies; kernel element orders -/
+section ProxyRead
+variable {R : Type} [CommRing R]
+
+/-- the dense proxies of dense.hpp denote what the proxy constructors of the expression layer
+denote: `row(A,i)` as a strided view of the storage = row `i` of the matrix read from it, … -/
+theorem proxy_read_row (m : MRef) (rd : Nat → R) (i : Nat) :
+    (m.row i).read rd ≈ᵥ VExp.row (m.read rd) i := by
+  refine ⟨?_, fun k _ => ?_⟩
+  · unfold MRef.row; cases m.rowMajor <;> simp [VRef.read, MRef.read, VExp.size, MExp.size2]
+  · simp only [VRef.read, MRef.read, VExp.get, MExp.get, proxy_index_row]
+
+theorem proxy_read_trans (m : MRef) (rd : Nat → R) : m.trans.read rd ≈ₘ MExp.trans (m.read rd) := by
+  refine ⟨?_, ?_, fun i j _ _ => ?_⟩
+  · simp [MRef.read, MRef.trans, MExp.size1, MExp.size2]
+  · simp [MRef.read, MRef.trans, MExp.size1, MExp.size2]
+  · simp only [MRef.read, MExp.get, proxy_index_trans]
+
+theorem proxy_read_column (m : MRef) (rd : Nat → R) (j : Nat) :
+    (m.column j).read rd ≈ᵥ VExp.row (MExp.trans (m.read rd)) j := by
+  refine ⟨?_, fun k _ => ?_⟩
+  · unfold MRef.column MRef.row MRef.trans; cases m.rowMajor <;> simp [VRef.read, MRef.read, VExp.size, MExp.size2, MExp.size1]
+  · simp only [VRef.read, MRef.read, VExp.get, MExp.get, proxy_index_column]
+
+theorem proxy_read_vrange (v : VRef) (rd : Nat → R) (s t : Nat) :
+    (v.range s t).read rd ≈ᵥ VExp.range (v.read rd) s t := by
+  refine ⟨?_, fun k _ => ?_⟩
+  · simp [VRef.read, VRef.range, VExp.size]
+  · simp only [VRef.read, VExp.get, proxy_index_vrange]
+
+theorem proxy_read_mrange (m : MRef) (rd : Nat → R) (s1 e1 s2 e2 : Nat) :
+    (m.range s1 e1 s2 e2).read rd ≈ₘ MExp.range (m.read rd) s1 e1 s2 e2 := by
+  refine ⟨?_, ?_, fun i j _ _ => ?_⟩
+  · simp [MRef.read, MRef.range, MExp.size1]
+  · simp [MRef.read, MRef.range, MExp.size2]
+  · simp only [MRef.read, MExp.get, proxy_index_mrange]
+
+theorem proxy_read_rows (m : MRef) (rd : Nat → R) (s e : Nat) :
+    (m.rows s e).read rd ≈ₘ MExp.rows (m.read rd) s e := by
+  refine ⟨?_, ?_, fun i j _ _ => ?_⟩
+  · simp [MRef.read, MRef.rows, MRef.range, MExp.size1]
+  · simp [MRef.read, MRef.rows, MRef.range, MExp.size2]
+  · simp only [MRef.read, MExp.get, proxy_index_rows]
+
+theorem proxy_read_diag (m : MRef) (rd : Nat → R) : m.diag.read rd ≈ᵥ VExp.diag (m.read rd) := by
+  refine ⟨?_, fun k _ => ?_⟩
+  · simp [VRef.read, MRef.read, MRef.diag, VExp.size, MExp.size1, MExp.size2]
+  · simp only [VRef.read, MRef.read, VExp.get, MExp.get, proxy_index_diag]
+
+end ProxyRead
+
+/-- the column sweep (the element order of the column-major kernels) is an admissible order -/
+theorem colSweep_mem (n1 n2 k : Nat) : k ∈ colSweep n1 n2 ↔ k < n1 * n2 := by
+  unfold colSweep
+  simp only [List.mem_flatMap, List.mem_range, List.mem_map]
+  constructor
+  · rintro ⟨j, hj, i, hi, rfl⟩
+    calc i * n2 + j < i * n2 + n2 := by omega
+      _ = (i + 1) * n2 := by rw [Nat.add_mul]; simp
+      _ ≤ n1 * n2 := Nat.mul_le_mul_right _ hi
+  · intro hk
+    have hn2 : 0 < n2 := by
+      rcases Nat.eq_zero_or_pos n2 with h | h
+      · subst h; simp at hk
+      · exact h
+    refine ⟨k % n2, Nat.mod_lt _ hn2, k / n2, (Nat.div_lt_iff_lt_mul hn2).mpr hk, ?_⟩
+    rw [Nat.mul_comm]; exact Nat.div_add_mod k n2
+
+theorem colSweep_nodup (n1 n2 : Nat) : (colSweep n1 n2).Nodup := by
+  unfold colSweep
+  rw [List.nodup_flatMap]
+  constructor
+  · intro j hj
+    have hj' : j < n2 := List.mem_range.mp hj
+    apply List.Nodup.map_on _ List.nodup_range
+    intro a _ b _ h
+    exact (idx_inj hj' hj' h).1
+  · have : List.Pairwise (fun a b : Nat => a < b) (List.range n2) := List.pairwise_lt_range
+    refine List.Pairwise.imp_of_mem ?_ this
+    intro a b ha hb hab
+    have ha' : a < n2 := List.mem_range.mp ha
+    have hb' : b < n2 := List.mem_range.mp hb
+    intro x hx1 hx2
+    obtain ⟨i, _, rfl⟩ := List.mem_map.mp hx1
+    obtain ⟨i', _, h⟩ := List.mem_map.mp hx2
+    have := (idx_inj hb' ha' h).2
+    omega
+
+section KernelOrders
+variable {σ R : Type} [Zero R] [Add R] [Mul R]
+
+/-- `orientation_irrelevant` instantiated with the element orders of the dense kernels: row sweep for
+the row-major, column sweep for the column-major container -/
+theorem orientation_irrelevant_kernel_orders (ops : MemOps σ R) (hl : Lawful ops) (n1 n2 base1 base2 : Nat)
+    (val : Nat → Nat → R) (s1 s2 : σ) (i j : Nat) (hi : i < n1) (hj : j < n2) :
+    let mr := MRef.container base1 n1 n2 true
+    let mc := MRef.container base2 n1 n2 false
+    let e : σ → Nat → R := fun _ k => val (k / n2) (k % n2)
+    let sr := assignAlias ops (fun _ y => y) (fun k => mr.addr (k / n2) (k % n2)) e (rowSweep n1 n2) s1
+    let sc := assignAlias ops (fun _ y => y) (fun k => mc.addr (k / n2) (k % n2)) e (colSweep n1 n2) s2
+    (mr.read (ops.rd sr)).get i j = val i j ∧ (mc.read (ops.rd sc)).get i j = val i j :=
+  orientation_irrelevant ops hl n1 n2 base1 base2 val (rowSweep n1 n2) (colSweep n1 n2)
+    (rowSweep_covers n1 n2).1 (colSweep_nodup n1 n2) (rowSweep_covers n1 n2).2 (colSweep_mem n1 n2) s1 s2 i j hi hj
+
+end KernelOrders
+
 
 /-! ## 4. non-vacuity: the hypotheses of the theorems above are satisfiable, the statements
 are evaluated on concrete instances (tests, not the theorems) -/
